@@ -13,6 +13,7 @@ import (
 	"time"
 
 	"github.com/thomasjungblut/go-sstables/recordio"
+	"verifsim/simos"
 	"verifsim/simrt"
 )
 
@@ -46,6 +47,7 @@ type rioCase struct {
 	Records     []rioRec `json:"records"`
 	SkipMask    uint64   `json:"skip_mask"`             // reader program: bit i set = SkipNext for record i
 	DirectRead  bool     `json:"direct_read,omitempty"` // sequential reader through the direct-I/O factory (stub: flag dropped)
+	ViaFile     bool     `json:"via_file,omitempty"`    // writer and sequential reader are given an open file handle instead of a path
 }
 
 func rioPayload(i int, r rioRec) []byte {
@@ -107,6 +109,9 @@ func rioGen(r *rand.Rand, mode string, thorough bool) rioCase {
 	if mode == "control" && r.Intn(8) == 0 {
 		c.DirectRead = true
 		c.ReadBuf = pick(r, 4096, 8192)
+	}
+	if mode == "control" && !c.DirectRead && r.Intn(8) == 0 {
+		c.ViaFile = true
 	}
 	n := 1 + r.Intn(10)
 	if thorough {
@@ -172,6 +177,13 @@ type rioWritten struct {
 // rioWrite executes the writer program; returns the surviving records with offsets and the final writer size.
 func rioWrite(path string, c rioCase) ([]rioWritten, uint64, error) {
 	opts := []recordio.FileWriterOption{recordio.Path(path), recordio.CompressionType(c.Compression), recordio.BufferSizeBytes(c.WriteBuf)}
+	if c.ViaFile {
+		f, err := simos.Create(path)
+		if err != nil {
+			return nil, 0, fmt.Errorf("create: %w", err)
+		}
+		opts[0] = recordio.File(f)
+	}
 	if c.DirectIO {
 		opts = append(opts, recordio.DirectIO())
 	}
@@ -265,7 +277,16 @@ func rioControl(c *Ctx, rc rioCase, tape *simrt.Tape, count bool) (vs []rioV, ev
 		}
 		return o
 	}
-	rd, err := recordio.NewFileReader(readerOpts()...)
+	var rd recordio.ReaderI
+	if rc.ViaFile {
+		// the handle constructor has no buffer-size parameter
+		var f *simos.File
+		if f, err = simos.Open(path); err == nil {
+			rd, err = recordio.NewFileReaderWithFile(f)
+		}
+	} else {
+		rd, err = recordio.NewFileReader(readerOpts()...)
+	}
 	if err == nil {
 		err = rd.Open()
 	}
